@@ -1000,4 +1000,82 @@ theorem pointTS_time_lods (cal : Cal) (a : Args) (lods : List LOD) (s0 : Int)
   unfold pointTS at h ⊢
   dsimp only at h ⊢
   split <;> split <;> simp_all [TS.empty]
+/-! ### time-shifted per-level ranges and LOD.IndexOf -/
+
+theorem segEnd_lt (cal : Cal) (s : Int) (hf : Fwd cal s) (i n : Nat) (h : i < n) (t : Int) :
+    segEnd cal s i t < segEnd cal s n t := by
+  obtain ⟨d, rfl⟩ : ∃ d, n = i + d := ⟨n - i, by omega⟩
+  rw [segEnd_add]
+  have := segEnd_ge cal s hf d (segEnd cal s i t)
+  omega
+
+theorem segEnd_fixed (cal : Cal) (s : Int) (hn : isMonth s = false) (n : Nat) (t : Int) : segEnd cal s n t = t + n * s := by
+  induction n generalizing t with
+  | zero => simp [segEnd]
+  | succ n ih =>
+    simp only [segEnd, stepForward, hn, Bool.false_eq_true, if_false, ih]
+    rw [Int.natCast_succ, Int.add_mul]; omega
+
+/-- LOD.IndexOf is defined for every grid point of a range and returns its position -/
+theorem indexOf_grid (cal : Cal) (s : Int) (hf : Fwd cal s) (hs : isMonth s = true ∨ 0 < s) (from_ to_ : Int) (i : Nat) :
+    indexOf cal (from_, to_, s) (segEnd cal s i from_) = some (i : Int) := by
+  unfold indexOf
+  by_cases hm : isMonth s = true
+  · simp only [hm, if_true]
+    obtain ⟨k, hk, hl⟩ := endOfLOD_spec cal s hf from_ (segEnd cal s i from_)
+    have hi : Least cal s (segEnd cal s i from_) from_ i :=
+      ⟨Int.le_refl _, fun j hj => segEnd_lt cal s hf j i hj from_⟩
+    have := least_unique cal s _ from_ k i hl hi
+    subst this
+    simp [hk]
+  · have hn : isMonth s = false := by simpa using hm
+    have hp : 0 < s := by rcases hs with h | h; exact absurd h hm; exact h
+    simp only [hn, Bool.false_eq_true, if_false, segEnd_fixed cal s hn]
+    have e : from_ + (i : Int) * s - from_ = (i : Int) * s := by omega
+    rw [e, Int.mul_tmod_left, Int.mul_tdiv_cancel _ (by omega : s ≠ 0)]
+    simp
+
+/-- every later (finer) step of the table keeps the alignment of an earlier (coarser) one -/
+theorem tbl_link (cal : Cal) (off : Int) (a : Args) :
+    ∀ s ∈ allSteps (levelsFor a), ∀ s' ∈ allSteps (levelsFor a), s' ≤ s → ∀ t, Aligned cal off t s → Aligned cal off t s' := by
+  intro s hs s' hs' hle t ha
+  unfold levelsFor at hs hs'
+  by_cases hmm : isMonth a.step = true
+  · simp only [hmm, if_true] at hs hs'
+    have m := monthly_is_month s hs
+    have m' := monthly_is_month s' hs'
+    simp only [Aligned, m, m', if_true] at *; exact ha
+  · simp only [hmm, Bool.false_eq_true, if_false] at hs hs'
+    have m := (levels_not_month s hs).1
+    have m' := (levels_not_month s' hs').1
+    have hd := tblDvd_levels s hs s' hs' hle
+    simp only [Aligned, m, m', Bool.false_eq_true, if_false] at *
+    exact Int.emod_eq_zero_of_dvd (Int.dvd_trans hd (Int.dvd_of_emod_eq_zero ha))
+
+theorem lodRanges_grid (cal : Cal) (hc : CalOK cal) (off : Int) {tbl : List Int}
+    (hlink : ∀ s ∈ tbl, ∀ s' ∈ tbl, s' ≤ s → ∀ t, Aligned cal off t s → Aligned cal off t s')
+    (lods : List LOD) (hok : LodsOK tbl lods) (S : Int) (hS : Aligned cal off S (step0Of lods)) :
+    ∀ (j : Nat) (r : Int × Int × Int) (l : LOD), (lodRanges cal lods S)[j]? = some r → lods[j]? = some l →
+      r.2.2 = l.step ∧ Aligned cal off r.1 l.step ∧ Aligned cal off r.2.1 l.step ∧ r.2.1 = segEnd cal l.step l.len r.1 := by
+  induction lods generalizing S with
+  | nil => intro j r l h; simp [lodRanges] at h
+  | cons l0 ls ih =>
+    intro j r l h hl
+    have hls : LodsOK tbl ls := ⟨fun x hx => hok.1 x (by simp [hx]), (List.pairwise_cons.mp hok.2).2⟩
+    simp only [step0Of] at hS
+    have hto : Aligned cal off (segEnd cal l0.step l0.len S) l0.step := aligned_segEnd cal hc off l0.step l0.len S hS
+    cases j with
+    | zero =>
+      simp [lodRanges] at h hl
+      subst hl; rw [← h]
+      exact ⟨rfl, hS, hto, rfl⟩
+    | succ j =>
+      simp only [lodRanges, List.getElem?_cons_succ] at h hl
+      refine ih hls _ ?_ j r l h hl
+      cases ls with
+      | nil => simp at hl
+      | cons l1 ls' =>
+        simp only [step0Of]
+        have hlt := (List.pairwise_cons.mp hok.2).1 l1 (by simp)
+        exact hlink _ (hok.1 l0 (by simp)).1 _ (hok.1 l1 (by simp)).1 (by omega) _ hto
 end SH.C22
